@@ -34,6 +34,12 @@ func callBuiltin(caller *frame, fn *ssa.Builtin, args []value) value {
 		return out
 
 	case "copy":
+		if _, ok := args[0].(*viewslice); ok {
+			return copyViews(in, args[0], args[1])
+		}
+		if _, ok := args[1].(*viewslice); ok {
+			return copyViews(in, args[0], args[1])
+		}
 		src := args[1]
 		if isStr(src) {
 			src = strBytes(src)
@@ -198,7 +204,7 @@ func callBuiltin(caller *frame, fn *ssa.Builtin, args []value) value {
 	case "ssa:deferstack":
 		return &caller.defers
 
-	case "unsafe.String":
+	case "unsafe.String", "String":
 		// unsafe.String(ptr *byte, len)
 		n := in.concInt(args[1])
 		if n == 0 {
@@ -220,7 +226,7 @@ func callBuiltin(caller *frame, fn *ssa.Builtin, args []value) value {
 		copy(out, org[:n])
 		return normStr(out)
 
-	case "unsafe.StringData":
+	case "unsafe.StringData", "StringData":
 		bs := strBytes(args[0])
 		if len(bs) == 0 {
 			return (*value)(nil)
@@ -228,7 +234,7 @@ func callBuiltin(caller *frame, fn *ssa.Builtin, args []value) value {
 		in.side.origin[&bs[0]] = bs
 		return &bs[0]
 
-	case "unsafe.SliceData":
+	case "unsafe.SliceData", "SliceData":
 		s := args[0].([]value)
 		if cap(s) == 0 {
 			return (*value)(nil)
@@ -237,7 +243,7 @@ func callBuiltin(caller *frame, fn *ssa.Builtin, args []value) value {
 		in.side.origin[&s[0]] = s
 		return &s[0]
 
-	case "unsafe.Slice":
+	case "unsafe.Slice", "Slice":
 		n := in.concInt(args[1])
 		p, _ := args[0].(*value)
 		if p == nil {
@@ -257,11 +263,47 @@ func callBuiltin(caller *frame, fn *ssa.Builtin, args []value) value {
 		}
 		return org[:n:n]
 
-	case "unsafe.Add":
+	case "unsafe.Add", "Add":
 		return unsafeAdd(in, args[0].(uptr), in.concInt(args[1]))
 	}
 
 	panic(unsupported{reason: "built-in: " + fn.Name()})
+}
+
+// viewElems abstracts element access for []value and *viewslice.
+func viewLen(v value) int {
+	switch v := v.(type) {
+	case []value:
+		return len(v)
+	case *viewslice:
+		return v.n
+	}
+	panic(fmt.Sprintf("viewLen(%T)", v))
+}
+
+func copyViews(in *interpreter, dst, src value) value {
+	n := viewLen(dst)
+	if m := viewLen(src); m < n {
+		n = m
+	}
+	tmp := make([]value, n)
+	for k := 0; k < n; k++ {
+		switch s := src.(type) {
+		case []value:
+			tmp[k] = copyVal(s[k])
+		case *viewslice:
+			tmp[k] = (&viewptr{base: s.base[int64(k)*sizeofT(s.elem):], t: s.elem}).load(in, s.elem)
+		}
+	}
+	for k := 0; k < n; k++ {
+		switch d := dst.(type) {
+		case []value:
+			d[k] = tmp[k]
+		case *viewslice:
+			(&viewptr{base: d.base[int64(k)*sizeofT(d.elem):], t: d.elem}).store(in, d.elem, tmp[k])
+		}
+	}
+	return n
 }
 
 func rangeIter(x value) iter {
